@@ -1,6 +1,8 @@
 """C20 Merging and histogramming conserve every spike."""
 import collections
 
+import math
+
 import numpy as np
 
 from .. import ref, gen
@@ -39,6 +41,11 @@ class Prop(BaseProp):
                 T = case["te"] - case["ts"]
                 case["bin"] = rng.choice([T, T / 2, T / 3, T / 4, T / 7, T / 64, T * 0.3, T * 0.7, T / 10, T * 0.999,
                                           T / rng.randint(1, 200), T / rng.randint(1, 200), T / rng.randint(1, 200)])
+                # bins narrower than a few ulps of the time stamps cannot be "equally wide" in binary64 whatever the
+                # implementation does (recordings at 2**40 sampled at ulp scale): outside the domain
+                ulp = math.ulp(max(abs(case["ts"]), abs(case["te"])))
+                if case["bin"] < 16 * ulp:
+                    case["bin"] = min(T, 16 * ulp)
             else:
                 T0 = rng.choice([0.0, 0.0, 50.0, 1000.0, -100.0, -20.0, 0.5])
                 L = rng.choice([1.0, 10.0, 100.0, 0.01])
